@@ -534,6 +534,55 @@ fn compat_queries(ctx: &mut Ctx) {
     }
 }
 
+/// Admission depends on what a peer presents, not on the socket's history: after hundreds of
+/// rejected (and abandoned) handshakes on one socket a valid peer is admitted like the first.
+async fn admission_after_many_rejections(ctx: &mut Ctx, local: &str, case: &Value) {
+    let mut sock = Sock::new(local, None);
+    let pty = peer_type_for(local);
+    let mut r = Rng::keyed(hash_str(local), &[4, 0x4E7]);
+    for k in 0..260u32 {
+        let (conn, rd, wr) = Conn::new();
+        let bytes: Vec<u8> = match k % 5 {
+            0 => rc::handshake("PAIR", None),                       // incompatible type
+            1 => rc::greeting_with((2, 1), b"NULL", 0xFF, 0x7F, 0), // old version
+            2 => r.bytes(80),                                       // garbage
+            3 => rc::greeting()[..20].to_vec(),                     // stalls, then abandoned
+            _ => {
+                let mut v = rc::greeting();
+                v.extend(rc::message(&[b"hello".to_vec()]));
+                v
+            }
+        };
+        conn.feed(&bytes);
+        if k % 5 != 3 {
+            conn.close_full(crate::pipe::EndKind::Eof);
+        }
+        let mut att = Managed::new(attach_future(sock.backend(), rd, wr));
+        let res = att.drive().await;
+        drop(att); // (a stalled one is abandoned here)
+        if matches!(res, Ok(Some(Ok(_)))) {
+            ctx.violation_with("C04/admitted-but-must-reject/history", format!("{local}: hostile handshake #{k} was admitted"), case.clone());
+            return;
+        }
+        ctx.count("rejected_handshakes_before_a_valid_one");
+    }
+    sim::settle().await;
+    match Peer::attach(&sock, pty, Some(b"late-but-valid")).await {
+        Ok(p) => {
+            if let Err(e) = exchange_with(&mut sock, &p, 77).await {
+                ctx.violation_with(&format!("C04/admitted-peer-unusable/{local}"), format!("after 260 rejected handshakes: {e}"), case.clone());
+                return;
+            }
+            ctx.count("valid_peers_admitted_after_many_rejections");
+        }
+        Err(e) => ctx.violation_with(
+            &format!("C04/rejected-but-must-admit/{local}-{pty}"),
+            format!("{local}: after 260 rejected or abandoned handshakes on this socket a well-formed compatible {pty} peer was refused: {e}"),
+            case.clone(),
+        ),
+    }
+}
+
 /// "…or else a fresh unique one": an identity the socket generates never equals one that is
 /// registered already — also when a peer announces the identities the generator is about
 /// to hand out (which it can, if they are predictable from the ones already seen).
@@ -707,6 +756,7 @@ impl Prop for C04 {
             for k in 0..4 {
                 v.push(json!({"kind": "generated_ids", "local": local, "k": k}));
             }
+            v.push(json!({"kind": "after_rejections", "local": local}));
             v.push(json!({"kind": "sig_sweep", "local": local, "delivery": "whole"}));
             v.push(json!({"kind": "sig_sweep", "local": local, "delivery": "byte-at-a-time"}));
         }
@@ -735,6 +785,10 @@ impl Prop for C04 {
                 let p = Point::from_json(case);
                 let delivery = s(case, "delivery").to_string();
                 sim::run(run_point(ctx, &p, &delivery, true));
+            }
+            "after_rejections" => {
+                ctx.eval(hash_str(&case.to_string()), true);
+                sim::run(admission_after_many_rejections(ctx, s(case, "local"), case));
             }
             "generated_ids" => {
                 ctx.eval(hash_str(&case.to_string()), true);
@@ -823,6 +877,7 @@ impl Prop for C04 {
             ("rejected_follow_up", 5_000),
             ("rejected/signature", 1000),
             ("signature_byte_values_swept", 9000),
+            ("valid_peers_admitted_after_many_rejections", 9),
             ("generated_identities_checked_against_announced_successors", 100),
             ("rig_admissions_beside_a_stalled_handshake", 60),
             ("rejected/version", 1000),
